@@ -6,7 +6,7 @@ P="$1"; ID="$2"; TIER="${3:-quick}"; shift; shift; [ $# -gt 0 ] && shift
 M=/root/scratch/repo_mut_$$
 mkdir -p /root/scratch && rsync -a --exclude .git /repo/ "$M"/ || exit 3
 ( cd "$M" && patch -p1 -s < "$P" ) || { echo "patch does not apply"; rm -rf "$M"; exit 3; }
-cd /verif && VERIF_REPO="$M" PYTHONPATH="$M" timeout 3000 ./check "$ID" --tier "$TIER" "$@" 2>&1 | grep -v "^WARN\|chttp2" | tail -6
+cd /verif && VERIF_EVIDENCE_DIR=/root/scratch/mutant_evidence VERIF_REPO="$M" PYTHONPATH="$M" timeout 3000 ./check "$ID" --tier "$TIER" "$@" 2>&1 | grep -v "^WARN\|chttp2" | tail -6
 rm -rf "$M"
 # translators regenerated lean/OptunaVerif/Generated from the mutated copy: put the pristine files back
 git -C /verif checkout -- lean/OptunaVerif/Generated 2>/dev/null
